@@ -1265,6 +1265,9 @@ package spec
 // normal form of the extension members of an object, and equality of two objects as JSON values
 //@ define nfExtensions(j smt:JV) bool = forall k string :: oCnt(j, k) > 0 && isExtKey(k) ==>
 //@       decOKOf("interface{}", oVal(j, k)) && encOf(decOf("interface{}", oVal(j, k))) == oVal(j, k)
+// a $ref member in normal form: a non-empty string in canonical form (so that it prints as it was written)
+//@ define nfRefMember(j smt:JV) bool = oCnt(j, "$ref") > 0 ==> jIsStr(oVal(j, "$ref")) && urlOK(decOf("string", oVal(j, "$ref"))) && decOf("string", oVal(j, "$ref")) != ""
+//@       && canonStr(decOf("string", oVal(j, "$ref"))) == decOf("string", oVal(j, "$ref")) && encOf(decOf("string", oVal(j, "$ref"))) == oVal(j, "$ref")
 //@ define noDuplicates(j smt:JV) bool = forall k string :: oCnt(j, k) <= 1
 //@ define sameObject(a smt:JV, b smt:JV) bool = forall k string :: oCnt(a, k) == oCnt(b, k) && (oCnt(b, k) > 0 ==> oVal(a, k) == oVal(b, k))
 // no extension key coincides with a keyword of the kind (keywords never start with x-)
@@ -1383,3 +1386,49 @@ package spec
 //@ func verifLemmaZeroRefJSON
 //@   property C13
 //@   ensures  [C13] empty-ref-is-empty-object @@ result1 == nil && isObj(jv(result0)) && (forall k string :: oCnt(jv(result0), k) == 0)
+
+//@ func verifLemmaItemsRoundTrip
+//@   property C01, C19
+//@   requires isObj(jv(data)) && noDuplicates(jv(data))
+//@   requires nfKind(jv(data), "CommonValidations", "primitivesItems") && nfKind(jv(data), "SimpleSchema", "primitivesItems") && nfExtensions(jv(data)) && nfRefMember(jv(data))
+//@   requires requiredPresent(jv(data), "primitivesItems")
+//@   requires forall k string :: oCnt(jv(data), k) > 0 ==> knownKey("CommonValidations", k) || knownKey("SimpleSchema", k) || isExtKey(k) || k == "$ref"
+//@   requires (forall k string :: (knownKey("CommonValidations", k) || knownKey("SimpleSchema", k)) ==> !isExtKey(k) && k != "$ref") && !isExtKey("$ref")
+//@   ensures  [C01] lossless @@ result != nil ==> sameObject(jv(result), jv(data))
+//@   excluding lossless @@ nfKindAll(jv(data), "CommonValidations", "primitivesItems") && nfKindAll(jv(data), "SimpleSchema", "primitivesItems")
+//@   ensures  [C19] required-kept @@ result != nil ==> requiredPresent(jv(result), "primitivesItems")
+//@   excluding required-kept @@ nfKindAll(jv(data), "CommonValidations", "primitivesItems") && nfKindAll(jv(data), "SimpleSchema", "primitivesItems")
+
+//@ func verifLemmaParameterRoundTrip
+//@   property C01, C19
+//@   requires isObj(jv(data)) && noDuplicates(jv(data))
+//@   requires nfKind(jv(data), "CommonValidations", "nonBodyParameter") && nfKind(jv(data), "SimpleSchema", "nonBodyParameter") && nfKind(jv(data), "ParamProps", "nonBodyParameter") && nfExtensions(jv(data)) && nfRefMember(jv(data))
+//@   requires requiredPresent(jv(data), "nonBodyParameter")
+//@   requires forall k string :: oCnt(jv(data), k) > 0 ==> knownKey("CommonValidations", k) || knownKey("SimpleSchema", k) || knownKey("ParamProps", k) || isExtKey(k) || k == "$ref"
+//@   requires (forall k string :: (knownKey("CommonValidations", k) || knownKey("SimpleSchema", k) || knownKey("ParamProps", k)) ==> !isExtKey(k) && k != "$ref") && !isExtKey("$ref")
+//@   ensures  [C01] lossless @@ result != nil ==> sameObject(jv(result), jv(data))
+//@   excluding lossless @@ nfKindAll(jv(data), "CommonValidations", "nonBodyParameter") && nfKindAll(jv(data), "SimpleSchema", "nonBodyParameter") && nfKindAll(jv(data), "ParamProps", "nonBodyParameter")
+//@   ensures  [C19] required-kept @@ result != nil ==> requiredPresent(jv(result), "nonBodyParameter")
+//@   excluding required-kept @@ nfKindAll(jv(data), "CommonValidations", "nonBodyParameter") && nfKindAll(jv(data), "SimpleSchema", "nonBodyParameter") && nfKindAll(jv(data), "ParamProps", "nonBodyParameter")
+
+//@ func verifLemmaResponseRoundTrip
+//@   property C01, C19
+//@   requires isObj(jv(data)) && noDuplicates(jv(data))
+//@   requires nfKind(jv(data), "ResponseProps", "response") && nfExtensions(jv(data)) && nfRefMember(jv(data))
+//@   requires (oCnt(jv(data), "$ref") == 0 && requiredPresent(jv(data), "response")) || (oCnt(jv(data), "$ref") > 0 && (forall k string :: oCnt(jv(data), k) > 0 ==> k == "$ref"))
+//@   requires forall k string :: oCnt(jv(data), k) > 0 ==> knownKey("ResponseProps", k) || isExtKey(k) || k == "$ref"
+//@   requires (forall k string :: (knownKey("ResponseProps", k)) ==> !isExtKey(k) && k != "$ref") && !isExtKey("$ref")
+//@   ensures  [C01] lossless @@ result != nil ==> sameObject(jv(result), jv(data))
+//@   ensures  [C19] required-kept @@ result != nil && oCnt(jv(data), "$ref") == 0 ==> requiredPresent(jv(result), "response")
+
+//@ func verifLemmaPathItemRoundTrip
+//@   property C01, C19
+//@   requires isObj(jv(data)) && noDuplicates(jv(data))
+//@   requires nfKind(jv(data), "PathItemProps", "pathItem") && nfExtensions(jv(data)) && nfRefMember(jv(data))
+//@   requires requiredPresent(jv(data), "pathItem")
+//@   requires forall k string :: oCnt(jv(data), k) > 0 ==> knownKey("PathItemProps", k) || isExtKey(k) || k == "$ref"
+//@   requires (forall k string :: (knownKey("PathItemProps", k)) ==> !isExtKey(k) && k != "$ref") && !isExtKey("$ref")
+//@   ensures  [C01] lossless @@ result != nil ==> sameObject(jv(result), jv(data))
+//@   excluding lossless @@ nfKindAll(jv(data), "PathItemProps", "pathItem")
+//@   ensures  [C19] required-kept @@ result != nil ==> requiredPresent(jv(result), "pathItem")
+//@   excluding required-kept @@ nfKindAll(jv(data), "PathItemProps", "pathItem")
